@@ -40,7 +40,7 @@ META = {
     "design_ref": "DESIGN.md §3 C03",
     "engines": ["sched", "linz", "refmodel", "storage_exec", "backends"],
 }
-REQUIRED = ("schedules", "schedules_b_inside_window", "lines_hit", "histories_checked", "soak_histories", "process_soak_histories")
+REQUIRED = ("schedules", "schedules_b_inside_window", "lines_hit", "histories_checked", "soak_histories", "process_soak_histories", "cells_visited_with_and_without_a_pickled_second_worker")
 SHARDS = {"quick": 14, "thorough": 16}
 WATCHDOG_S = {"quick": 1200, "thorough": 5 * 3600}
 BUDGET_S = {"quick": 75, "thorough": 2400}
@@ -106,6 +106,7 @@ class World:
 
     n_worlds = 0
     second_is_pickled_copy = False
+    force_pickled: "bool | None" = None      # None: every other journal world; True/False: set by run() for the cells it visits twice
 
     def __init__(self, kind: str, two: bool, grpc_workers: int = 10) -> None:
         self.kind = kind
@@ -113,7 +114,7 @@ class World:
         self.c1 = self.store.client()
         self.c2 = self.store.client() if (two and self.store.multi_client) else self.c1
         World.n_worlds += 1
-        if two and kind.startswith("journal_file") and World.n_worlds % 2 == 0:
+        if two and kind.startswith("journal_file") and (World.n_worlds % 2 == 0 if World.force_pickled is None else World.force_pickled):
             # every other world: the second worker got its storage the way a process pool hands it over - as an unpickled copy
             import pickle
 
@@ -663,7 +664,17 @@ def run(ctx: Ctx) -> None:
                 ctx.count("cells_not_visited_budget")
                 continue
             kind, two = CONFIGS[ci]
-            explore(ctx, s, kind, two, pn, P[pn])
+            if ci == 2 and pn in ("rejected_attr/create", "rejected_create_study/create", "claim/claim", "create/create"):
+                # these journal cells are visited twice: with two constructed workers, and with the second worker an unpickled copy
+                for forced in (False, True):
+                    World.force_pickled = forced
+                    try:
+                        explore(ctx, s, kind, two, pn, P[pn])
+                    finally:
+                        World.force_pickled = None
+                ctx.count("cells_visited_with_and_without_a_pickled_second_worker")
+            else:
+                explore(ctx, s, kind, two, pn, P[pn])
             ctx.count("cells_visited")
             ctx.count(f"config_{kind}{'_2obj' if two else ''}")
         for i in range(ctx.pick(3, 60)):
